@@ -217,7 +217,7 @@ def run_check(pid, tier, check):
         ecases = []
         for c in cases:
             ec = {"name": c["name"], "func": c["func"], "args": c.get("args", []), "expect_reach": c.get("reach", [])}
-            for k in ("unwind", "max_paths", "twin"):
+            for k in ("unwind", "max_paths", "twin", "unwind_is_violation"):
                 if k in c:
                     ec[k] = c[k]
             ecases.append(ec)
@@ -270,6 +270,8 @@ def run_check(pid, tier, check):
                 rpath = os.path.join(VERIF, "replays", "%s-%s.json" % (pid, digest))
                 rec = {"property": pid, "job": ji, "func": cr["func"], "args": cr["args"], "values": vals, "kind": v.get("kind"),
                        "msg": v.get("msg"), "where": v.get("where"), "trace": v.get("trace")}
+                if c.get("confirm_native"):
+                    rec["confirm_native"] = c["confirm_native"]
                 json.dump(rec, open(rpath, "w"), indent=1)
                 ok, how = confirm(job, rec, bdir, digest)
                 rec["replay"] = how
@@ -337,6 +339,19 @@ def run_check(pid, tier, check):
 def confirm(job, rec, bdir, digest):
     """Replays a counterexample against the real code. Native build when the harness can run natively,
     otherwise the interpreter in concrete mode (the real SSA with every nondet fixed)."""
+    if rec.get("confirm_native"):
+        # a dedicated native scenario on the real environment (real file system, real libraries)
+        cn = rec["confirm_native"]
+        res, timed_out, out = native_replay(job, [{"func": cn["func"], "args": cn.get("args", []), "values": {}}], bdir, "cn-" + digest,
+                                            timeout=cn.get("timeout", 20))
+        r = res[0]
+        if r is None:
+            if timed_out and rec["kind"] == "nontermination":
+                return True, "native run of %s%s on the real file system did not terminate within %ss (reproduced)" % (cn["func"], cn.get("args", []), cn.get("timeout", 20))
+            return False, "native confirmation produced no outcome: " + out[-400:].replace("\n", " | ")
+        if r[0].startswith("violated:") or r[0].startswith("panic:"):
+            return True, "native run of %s%s: %s" % (cn["func"], cn.get("args", []), r[0])
+        return False, "native confirmation %s%s: %s" % (cn["func"], cn.get("args", []), r[0])
     if job.get("native", True):
         res, timed_out, out = native_replay(job, [{"func": rec["func"], "args": rec["args"], "values": rec["values"]}], bdir, "cx-" + digest,
                                             timeout=job.get("replay_timeout", 120))
